@@ -978,6 +978,56 @@ def rule_text_sync(prog):
                             ok = True
                         if pr.get("k") == "Arm" and pr.get("guard") is not None and reads(pr["guard"], "line") and not reads(pr["guard"], "character"):
                             ok = True
+            # the column counter advances by len_utf16() (1 or 2): a requested column in the middle of a surrogate pair is jumped over
+            # by an equality test; the exit test on the column must be an ordering
+            counters = set()
+            for a_ in hir.nodes(gi["body"], "AssignOp"):
+                if any(m_.get("m") == "len_utf16" for m_ in hir.nodes(a_["r"], "MethodCall")):
+                    pl_ = hir.path_local(hir.strip(a_["l"]))
+                    if pl_:
+                        counters.add(pl_["id"])
+            for _ in range(2):
+                for l in hir.nodes(gi["body"], "Let"):
+                    if l.get("init") is not None and any((hir.path_local(x) or {}).get("id") in counters for x in hir.nodes(l["init"], "Path")):
+                        for bd in hir.pat_bindings(l["pat"]):
+                            pass  # tuples built from the counter are handled below through `mentions_counter`
+
+            def mentions_counter(e):
+                return any((hir.path_local(x) or {}).get("id") in counters for x in hir.nodes(e, "Path"))
+
+            eq_bad = None
+            n_cmp = 0
+            for cmp_ in hir.nodes(gi["body"], "Binary"):
+                if cmp_["op"] not in ("==", "!=", "<", "<=", ">", ">="):
+                    continue
+                l_, r_ = cmp_["l"], cmp_["r"]
+                if (mentions_counter(l_) and reads(r_, "character")) or (mentions_counter(r_) and reads(l_, "character")):
+                    n_cmp += 1
+                    if cmp_["op"] in ("==", "!="):
+                        eq_bad = cmp_
+            if counters and n_cmp:
+                out.add("document::get_insertion_index", "the requested column is compared with the UTF-16 column counter by an ordering, not by equality",
+                        eq_bad is None, c.loc((eq_bad or gi)["sp"]),
+                        "the counter advances by 2 for a character outside the BMP: a requested column between the two halves is never *equal* to "
+                        "the counter, the scan runs past it, start > end, and `String::replace_range` panics - the server dies on a didChange",
+                        ("clamp",))
+            # every exit of the scan answers with the scan head itself: an exit that steps back (`i - 1`) or forward can answer a
+            # larger column with a smaller index than another exit answers a smaller column with - start > end for start <= end
+            bad_ret = None
+            n_ret = 0
+            for lp in loops:
+                for rt in hir.nodes(lp["body"], "Ret"):
+                    if rt.get("e") is None:
+                        continue
+                    n_ret += 1
+                    if any(x.get("k") in ("Binary", "AssignOp") and x.get("op") in ("+", "-", "+=", "-=") for x in hir.nodes(rt["e"])):
+                        bad_ret = rt
+            if n_ret:
+                out.add("document::get_insertion_index", "every exit of the scan returns the scan position itself (the conversion is monotone)",
+                        bad_ret is None, c.loc((bad_ret or gi)["sp"]),
+                        "an exit returns the scan position adjusted by an offset: on `ab\\r\\ncd` column 3 of line 0 is answered with index 3 by "
+                        "the exact-match exit but column 99 with index 2 by this one, the range (0,3)-(0,99) becomes 3..2 and replace_range panics",
+                        ("clamp",))
             out.add("document::get_insertion_index", "a column behind the end of a line is clamped to the end of that line", ok,
                     c.loc(gi["sp"]), "the scan only stops where line *and* column match: for a column behind the end of its line it runs "
                     "on into the following lines and answers with the end of the document (LSP: such a column means the end of the line); "
